@@ -606,6 +606,22 @@ func (e *Exec) doAppend(fr *Frame, ins ssa.Instruction, c *ssa.CallCommon, args 
 	newAt := xat("(- " + q + " (+ " + off + " "+e.slen(s.T)+"))")
 	elseAt := Ite(fits, Sel(oldRow, q), e.zeroOf(elem))
 	e.Out.Assert("(forall ((" + q + " Int)) (! (= (select " + row + " " + q + ") (ite " + inOld + " " + oldAt + " (ite " + inNew + " " + newAt + " " + elseAt + "))) :pattern ((select " + row + " " + q + "))))")
+	// the same fact about the old elements in the index space of the two slices, triggered by either side: an existing
+	// term x[j] of the old slice produces the corresponding term of the new one (witnesses of "exists k" survive append)
+	if xlen == e.slen(xs.T) {
+		j := e.Out.FreshName("j")
+		oldIdx := Sel(oldRow, elemIdx(e.soff(s.T), j))
+		newIdx := Sel(row, elemIdx(off, j))
+		e.Out.Assert("(forall ((" + j + " Int)) (! (=> (and (<= 0 " + j + ") (< " + j + " " + e.slen(s.T) + ")) (= " + newIdx + " " + oldIdx + ")) :pattern (" + oldIdx + ") :pattern (" + newIdx + ")))")
+		// ... and the appended elements, triggered by the source elements
+		j2 := e.Out.FreshName("j")
+		srcAt := Sel(Sel(heap, e.sbase(xs.T)), elemIdx(e.soff(xs.T), j2))
+		dstAt := Sel(row, elemIdx(off, "(+ "+e.slen(s.T)+" "+j2+")"))
+		e.Out.Assert("(forall ((" + j2 + " Int)) (! (=> (and (<= 0 " + j2 + ") (< " + j2 + " " + xlen + ")) (= " + dstAt + " " + srcAt + ")) :pattern (" + srcAt + ")))")
+		if xlen == "1" {
+			e.Out.Assert(Eq(Sel(row, elemIdx(off, e.slen(s.T))), Sel(Sel(heap, e.sbase(xs.T)), elemIdx(e.soff(xs.T), "0"))))
+		}
+	}
 	e.set(st, h, hs, Ite(g, Sto(heap, base, row), heap))
 	e.recordWrite(h, "")
 	res := e.Out.Define(name, SSlice, "(mk_slice "+base+" "+off+" "+newLen+" "+Ite(fits, ""+e.scap(s.T)+"", newCap)+")")
